@@ -67,6 +67,15 @@ def gen_direct(rng, infeasible=False, classes=None, plain=False):
             if i not in bools and rng.random() < 0.5:
                 l[i], u[i], x0[i] = l[i] * S_, u[i] * S_, x0[i] * S_
     c = [round(rng.uniform(-10, 10), 2) if rng.random() < 0.85 else 0.0 for _ in range(n)]
+    inf_side = {}
+    if rng.random() < 0.1:
+        # half-infinite bounds: the side the objective pushes away from is left open (the problem stays bounded)
+        for i in rng.sample([i for i in range(n) if i not in bools] or [0], 1):
+            if i in bools:
+                continue
+            if c[i] == 0:
+                c[i] = 1.5
+            inf_side[i] = "u" if c[i] > 0 else "l"
     int_A = rng.random() < 0.12
     if classes is None:
         classes = rng.choice([["U", "L", "S", "N"], ["U", "L", "S", "N"], ["U"], ["L"], ["S"], ["N"], ["U", "L"], ["S", "N"], []])
@@ -128,7 +137,7 @@ def gen_direct(rng, infeasible=False, classes=None, plain=False):
         drop = set(rng.sample([i for i in range(n) if i not in bools] or [None], 1)) - {None}
         maprows = [r for r in maprows if r["i"] not in drop] or maprows
     with_bool_col = bool(bools) or rng.random() < 0.3
-    return {"kind": "direct", "n": n, "c": c, "l": l, "u": u, "rows": rows, "map": maprows, "bool_col": with_bool_col,
+    return {"kind": "direct", "n": n, "c": c, "l": l, "u": u, "inf": {str(k_): v_ for k_, v_ in inf_side.items()}, "rows": rows, "map": maprows, "bool_col": with_bool_col,
             "bools": bools, "x0": x0, "A_format": rng.choice(["lil", "lil", "csr", "coo", "csc"]),
             "bool_nan": bool(bools) and rng.random() < 0.3, "int_c": rng.random() < 0.2, "coo_dups": (not int_A) and rng.random() < 0.12,
             "int_A": int_A}
@@ -167,10 +176,15 @@ def build_direct(s):
         d_ = np.concatenate([Ac.data * 0.25, Ac.data * 0.75, np.zeros(1)])
         A = sp.coo_matrix((d_, (r_, c_)), shape=Ac.shape)
     c = np.array(s["c"], float)
+    lo_, up_ = np.array(s["l"], float), np.array(s["u"], float)
+    for k_, side in (s.get("inf") or {}).items():
+        if side == "u":
+            up_[int(k_)] = np.inf
+        else:
+            lo_[int(k_)] = -np.inf
     if s.get("int_c"):
         c = np.round(c).astype(np.int64)     # whole-number costs handed over as an integer array
-    return eao.optimization.OptimProblem(c=c, l=np.array(s["l"], float), u=np.array(s["u"], float),
-                                         A=A, b=b, cType=ct, mapping=m)
+    return eao.optimization.OptimProblem(c=c, l=lo_, u=up_, A=A, b=b, cType=ct, mapping=m)
 
 
 def build_direct_split(src):
@@ -198,6 +212,16 @@ def gen_plan(rng, run_index, tier, opts):
         if rng.random() < 0.4:
             for p_ in parts:
                 p_["int_c"] = True     # every interval with integer-typed costs
+        if rng.random() < 0.3:
+            # two intervals with identical numbers, one with and one without its boolean flags (anything that recognises
+            # "the same interval again" by its numbers alone will confuse them)
+            src_ = next((p_ for p_ in parts if p_["bools"]), None)
+            if src_ is not None:
+                twin_ = copy.deepcopy(src_)
+                twin_["bools"] = []
+                for r_ in twin_["map"]:
+                    r_["bool"] = False
+                parts.insert(rng.randrange(len(parts) + 1), twin_)
         plan["source"] = {"kind": "direct_split", "parts": parts}
         mip = any(p_["bools"] for p_ in parts)
         n_solves = 14
@@ -355,8 +379,15 @@ class Conversation:
         self.faults[k] = self.faults.get(k, 0) + 1
 
     def viol(self, clause, detail, field=""):
+        v = {"clause": clause, "detail": detail, "field": field, "signature": "%s|%s|%s" % (ID, clause, field)}
+        if clause.startswith("request-") and len(getattr(self, "cur_ops", [])) > 1 and not getattr(self, "promoting", False):
+            # split problem: a request can only be held against "its" interval if every interval was solved exactly once,
+            # in order - known only when the conversation is over
+            if getattr(self, "pending_request_violation", None) is None:
+                self.pending_request_violation = v
+            return
         if self.violation is None:
-            self.violation = {"clause": clause, "detail": detail, "field": field, "signature": "%s|%s|%s" % (ID, clause, field)}
+            self.violation = v
 
     # ---- tolerances
     def tols(self):
@@ -410,6 +441,14 @@ class Conversation:
             xs = list(prob.variables())
         xs = [v for v in xs if v.size == n]
         others = [v for v in prob.variables() if not any(v is q for q in xs)]
+        if len(xs) != 1 and len(self.cur_ops) > 1:
+            # split problem whose solve calls cannot be lined up with its intervals (an implementation may legitimately
+            # skip or merge solves): the requests of this conversation are not judged, the stitched result still is
+            self.stats["requests_not_alignable"] = self.stats.get("requests_not_alignable", 0) + 1
+            self.misaligned = True
+            return
+        if getattr(self, "misaligned", False):
+            return
         if len(xs) != 1:
             self.viol("request-shape", "expected one variable vector of length %d in the request, found %s"
                       % (n, [v.shape for v in prob.variables()]), "variables")
@@ -430,7 +469,10 @@ class Conversation:
             return
         rec["bools"] = want
         # probe points
-        l, u = np.asarray(op.l, float), np.asarray(op.u, float)
+        l, u = np.asarray(op.l, float).copy(), np.asarray(op.u, float).copy()
+        fin_ = np.where(np.isfinite(l), l, np.where(np.isfinite(u), u, 0.0))
+        l = np.where(np.isfinite(l), l, fin_ - 10.0 - np.abs(fin_))      # finite stand-ins for open sides (probe points only)
+        u = np.where(np.isfinite(u), u, fin_ + 10.0 + np.abs(fin_))
         pts = [l.copy(), u.copy(), (l + u) / 2]
         for j in range(5):
             frac = np.array([((i * 7919 + (j + 1) * 104729 + k * 31) % 997) / 997.0 for i in range(n)])
@@ -456,7 +498,10 @@ class Conversation:
             x.save_value(z)
             tval = None
             if samples is not None and others:
-                tval = float(min(-s @ z for s in samples)) - 0.25
+                dcfs_ = sorted(float(-s @ z) for s in samples)
+                # the auxiliary minimum sits between the sample values: about half of the sample rows are violated at the
+                # probe point, so a request that leaves out (or changes) a sample row is seen
+                tval = 0.5 * (dcfs_[0] + dcfs_[-1]) + 0.125 if len(dcfs_) > 1 else dcfs_[0] - 0.25
                 others[0].save_value(np.array([tval]))
             try:
                 cv = np.concatenate([np.atleast_1d(np.asarray(c.violation(), float)).ravel() for c in prob.constraints]) \
@@ -766,6 +811,8 @@ class Conversation:
         self.cur_ops = ops
         self.requests = {}
         self.samples = None
+        self.misaligned = False
+        self.pending_request_violation = None
         kw = {}
         if call.get("solver"):
             kw["solver"] = call["solver"]
@@ -815,6 +862,16 @@ class Conversation:
             except Exception as e:
                 res, exc = None, e
         self.stats["solve_calls"] += len(ss.log)
+        pend = getattr(self, "pending_request_violation", None)
+        if pend is not None:
+            if split and len(ss.log) == len(ops) and not self.misaligned and self.violation is None:
+                self.violation = pend
+            else:
+                self.stats["requests_not_alignable"] = self.stats.get("requests_not_alignable", 0) + 1
+                self.misaligned = True
+            self.pending_request_violation = None
+        if split and len(ss.log) != len(ops) and exc is None:
+            self.misaligned = True
         for k_, v_ in ss.fired.items():
             self.fault(k_.split(":")[0] if not k_.startswith("status:") else k_)
         outcome = "raise" if exc is not None else ("fail" if isinstance(res, str) else "results")
@@ -846,10 +903,10 @@ class Conversation:
             self.stats["no_claim"] += 1
             return
         bad = [f for f in faults if f and (f == "raise" or f.startswith("status:"))]
-        if bad:
+        if bad and not getattr(self, "misaligned", False) and len(log) == len(ops):
             self.viol("success-after-nonoptimal-response", "an interval's peer answered %s but the split optimize() returned a Results" % bad[0], "split")
             return
-        if any(r.get("status") != "optimal" for r in log):
+        if not getattr(self, "misaligned", False) and any(r.get("status") != "optimal" for r in log):
             self.viol("success-after-nonoptimal-response", "interval statuses %s but the split optimize() returned a Results" % [r.get("status") for r in log], "split-status")
             return
         x = np.asarray(res.x, float)
